@@ -84,7 +84,9 @@ def m1prop(pid, props_file, prefixes, quick=300, thorough=6000, extra=None, spec
                 monitor_prefixes=prefixes, search_n=3000, harness_timeout=1200, extra=extra)
 
 PROPS['C01'] = m1prop('C01', 'theories/Props/C01.v', ['C01', 'panic', 'hang'],
-                      extra=scenario_extra(('C01-callback-registration-not-atomic', 8, 'gated: two concurrent senders on one charge point, the first held inside the request queue and then refused; its callback must never run, the other sender gets its own reply'),
+                      extra=scenario_extra(('C01-new-session-request-never-concluded', 30, 'gated: Stop, Start and a new request while the callback routine of the first session is still inside an application callback; the new request is concluded exactly once, at its own callback (F35)'),
+                                            ('C01-conclusion-delivered-after-stop', 31, 'gated: Stop while a conclusion waits for the busy callback routine, 16 tries; nothing is delivered once Stop has returned (F36)'),
+                                            ('C01-callback-registration-not-atomic', 8, 'gated: two concurrent senders on one charge point, the first held inside the request queue and then refused; its callback must never run, the other sender gets its own reply'),
                                             ('C01-stale-conclusion-after-restart', 12, 'gated: Stop overtakes a conclusion on its way to the callback routine, 12 tries; after Start the first callback gets its own reply (F32)'),
                                             ('C01-reply-racing-timeout', 22, 'gated (RequestQueue.Peek held): the reply to a request and its timeout are handled at the same time; the request is concluded exactly once, the next requests are written, answered and concluded (F9)'),
                                             ('C01-conclusions-reordered', 19, 'gated: while the callback routine is busy a response and then an error are concluded, 12 tries; each reaches its own callback (F5)')))
@@ -97,6 +99,7 @@ PROPS['C07'] = m1prop('C07', 'theories/Props/C07.v', ['C07', 'hang', 'panic'],
                       extra=scenario_extra(('C07-senders-vs-disconnect-deadlock', 6, 'real sockets: 4 goroutines keep sending on a charge point while the central system drops its connection 12 times; every send and the final Stop must return (F30)'),
                                             ('C07-resume-blocks-pump', 9, 'gated: a write fails and the pump sits in the application cancel callback while the connection drops and comes back; Resume must not block the pump, the endpoint keeps working'),
                                             ('C07-pause-waits-for-taken-expiry', 29, 'gated: a request times out and the connection drops while the pump is inside the cancel callback; the disconnection is processed, the reconnected endpoint sends again (F34)'),
+                                            ('C07-expiries-exceed-timer-channel', 32, 'gated: the requests of 14 clients expire while the pump is held in the first cancel callback (the timer channel holds 10) and a client disconnects meanwhile: all are cancelled, the disconnection returns, a later request is served, Stop returns (F37)'),
                                             ('C07-wakeup-lost', 28, 'gated: two clients complete a request while the pump is busy with a third: both of their queued requests are written'),
                                             ('C07-new-session-never-served', 24, 'gated: immediate reconnect of a client whose disconnection the busy pump has not handled yet; its next request is written (F13)'),
                                             ('C07-reply-racing-timeout-stall', 22, 'gated (RequestQueue.Peek held): reply and timeout of one request handled at the same time; the dispatcher goes on with the next requests (F9)'),
@@ -117,7 +120,9 @@ PROPS['C11'] = Prop('C11', harness='c11', entries=['c11rt', 'm1c', 'm1c_h', 'm1c
                                          ('C11-timeout-of-one-client-dispatches-for-another', 16, 'client C times out right after client A completed an exchange; the application\'s cancel handler sends a request to A: it goes to A once, nothing is written to C, nothing crashes (F1)'),
                                          ('C11-stale-pending-after-session-end', 7, 'bare ocppj.Server without an application disconnect handler: a session ends with a request outstanding, the same id reconnects, the reply to the new session\'s first request must be accepted')))
 PROPS['C16'] = m1prop('C16', 'theories/Props/C16.v', ['C16', 'panic'], spec_entries=['m1c_fresh'],
-                      extra=scenario_extra(('C16-send-racing-stop', 5, 'real sockets: 4 goroutines send on a charge point while Stop is called, 40 rounds; nothing may crash or block (F10)'),
+                      extra=scenario_extra(('C16-restart-while-callback-busy', 30, 'gated: Stop, Start and a new request while the callback routine of the first session is still inside an application callback; the new request is concluded at its own callback (F35)'),
+                                            ('C16-callback-after-stop', 31, 'gated: Stop while the callback routine is busy and a further conclusion waits for it, 16 tries; no callback fires once Stop has returned (F36)'),
+                                            ('C16-send-racing-stop', 5, 'real sockets: 4 goroutines send on a charge point while Stop is called, 40 rounds; nothing may crash or block (F10)'),
                                             ('C16-stale-ready-token-after-restart', 11, 'gated: Stop arrives while a ready token is unconsumed (pump held in the cancel callback), 12 tries; after Start the first request is written exactly once (F31)'),
                                             ('C16-stale-conclusion-after-restart', 12, 'gated: Stop arrives while a conclusion waits for the busy callback routine, 12 tries; after Start the first callback gets its own reply (F32)'),
                                             ('C16-reconnection-attempt-after-stop', 18, 'ws client, real sockets, gated through ws.SetLogger: Stop while a connection loss is being handled (forced close picked up, cleanup not yet run); after Stop has returned no dial, no connection, no reconnected callback')))
